@@ -203,6 +203,9 @@ def leanchecker(modules):
 
 # ----------------------------------------------------------------------------- pipeline
 
+SLOW_OPS = ("run ", "cli ")     # wall-clock cases: spread over parallel harness processes
+
+
 def run_pipeline(harness, cases, timeout=1800):
     """cases: list of case strings `op args…` (no id). Returns list of records."""
     ids = ["%d" % i for i in range(len(cases))]
@@ -210,8 +213,8 @@ def run_pipeline(harness, cases, timeout=1800):
     env = goenv()
     env.setdefault("GOMEMLIMIT", "6GiB")
     # whole-run cases take wall-clock time: spread them over parallel harness processes
-    slow = [i for i, c in zip(ids, cases) if c.startswith("run ")]
-    fast_inp = "".join("%s %s\n" % (i, c) for i, c in zip(ids, cases) if not c.startswith("run "))
+    slow = [i for i, c in zip(ids, cases) if c.startswith(SLOW_OPS)]
+    fast_inp = "".join("%s %s\n" % (i, c) for i, c in zip(ids, cases) if not c.startswith(SLOW_OPS))
     impl = {}
     slow_results = {}
     threads = []
@@ -247,7 +250,7 @@ def run_pipeline(harness, cases, timeout=1800):
             impl[parts[0]] = parts[1]
     stderr_tail = p.stderr[-2000:]
     # a case that killed the harness process: re-run the remaining ones alone
-    missing = [i for i in ids if i not in impl and not cases[int(i)].startswith("run ")]
+    missing = [i for i in ids if i not in impl and not cases[int(i)].startswith(SLOW_OPS)]
     if missing and p.returncode != 0:
         first = missing[0]
         impl[first] = "crash:process"
